@@ -4,5 +4,5 @@ f=$1; n=$2
 d=$(mktemp -d /tmp/goalXXXX)
 head -n $((n-1)) "$f" > $d/G.v
 echo "Show." >> $d/G.v
-cd /verif/coq && timeout 120 coqc -Q . CXV -w none $d/G.v 2>&1 | grep -v "^Error: There are pending proofs" | tail -${3:-40}
+cd ${COQROOT:-/verif/coq} && timeout 120 coqc -Q . CXV -w none $d/G.v 2>&1 | grep -v "^Error: There are pending proofs" | tail -${3:-40}
 rm -rf $d
